@@ -121,8 +121,27 @@ class Multiline:
     self
     """
     for of in gfa_line.tagnames:
+      self._check_single_definition(of, gfa_line.get(of))
+    for of in gfa_line.tagnames:
       self.add(of, gfa_line.get(of), gfa_line.get_datatype(of))
     return self
+
+  def _check_single_definition(self, tagname, value):
+    """
+    Raise if value contradicts the stored value of a single-definition tag
+    (so that a refused header line is not partially merged).
+    """
+    if tagname not in self.SINGLE_DEFINITION_TAGS:
+      return
+    prev = self.get(tagname)
+    if prev is None or isinstance(prev, gfapy.FieldArray):
+      return
+    if self.field_to_s(tagname) != \
+        gfapy.Field._to_gfa_field(value, fieldname=tagname):
+      raise gfapy.InconsistencyError(
+        "Inconsistent values for header tag {} found\n".format(tagname)+
+        "Previous definition: {}\n".format(prev)+
+        "Current definition: {}".format(value))
 
   def _tags(self):
     """
